@@ -41,6 +41,16 @@ Theorem C06_identical_lines_no_emphasis : forall (T : Type) (eqb : T -> T -> boo
   forall (d : T) x, x <> [] -> operations T eqb x x = repeat ONoOp (length x).
 Proof. intros T eqb H d x. exact (operations_same T eqb H d x). Qed.
 
+(* Every token of either line gets exactly one annotation: the operations consuming a token of
+   the removed line (NoOp, Deletion) are as many as it has tokens; likewise NoOp / Insertion for
+   the added line. *)
+Theorem C06_every_token_annotated_once : forall (T : Type) (eqb : T -> T -> bool),
+  (forall a b, eqb a b = true <-> a = b) ->
+  forall d x y, x <> [] -> y <> [] -> nth 0 x d = nth 0 y d ->
+  length (filter (fun o => match o with OIns => false | _ => true end) (operations T eqb x y)) = length x /\
+  length (filter (fun o => match o with ODel => false | _ => true end) (operations T eqb x y)) = length y.
+Proof. exact operations_cover. Qed.
+
 (* Non-vacuity: "aaa bb" vs "aaa cc" *)
 Example C06_example :
   operations text text_eqb [[]; [97;97;97]; [32]; [98;98]]%N [[]; [97;97;97]; [32]; [99;99]]%N
